@@ -441,6 +441,7 @@ def _gen_methods(cx, pkg, main, svc, noun, res, enums, msgs):
                 [f"parent,{low},{low}_id"], [f"parent,{low},{low}_id", "parent," + low],
                 [f"parent,{low}_id", f"parent,{low},{low}_id"],          # a later signature adds a path whose text occurs inside an earlier one
                 ["parent", f"parent,{low},{low}_id"],                    # a later signature adds two new paths
+                [f"parent,{low}.name", f"parent,{low},{low}_id"],        # a message field AND a field nested in it are flattened
                 [f"{low}_id", f"parent,{low}"]])
         svc["methods"].append(m)
 
